@@ -135,6 +135,7 @@ MUTATIONS = {
         ('serverconfig', 'tonic/src/transport/server/mod.rs', r'timeout: Some\(timeout\),', 'timeout: None,', 'timeout() setter stores nothing'),
     ],
     'C16': [
+        ('b64cfg', 'tonic-web/src/lib.rs', r'DecodePaddingMode::Indifferent', 'DecodePaddingMode::RequireNone', 'grpc-web-text bodies with padding are refused'),
         ('webserver', 'tonic-web/src/call.rs', r"acc\.push\(b':'\);", "acc.push(b'=');", 'trailer row separator'),
         ('webserver', 'tonic-web/src/call.rs', r'acc\.put_slice\(value\.as_bytes\(\)\);', 'acc.put_slice(key.as_ref());', 'trailer value replaced by its name'),
         ('webserver', 'tonic-web/src/call.rs', r'frame\.put_u8\(GRPC_WEB_TRAILERS_BIT\);', 'frame.put_u8(0);', 'trailers frame without the 0x80 flag'),
